@@ -45,7 +45,7 @@ fn case<S: Shape>(r: &mut Rng, acc: &mut Acc, index: u64) {
     let disjoint = r.chance(1, 2);
     let mut specs: Vec<TlSpec> = Vec::new();
     for ci in 0..n_comp {
-        let mut s = gen_tl(r, kinds, &GenOpts { min_kf: 1, ..GenOpts::default() });
+        let mut s = gen_tl(r, kinds, &GenOpts { min_kf: 1, neg_delay: true, ..GenOpts::default() });
         if r.chance(1, 6) {
             s.repeat = *r.pick(&[Rep::Times(u32::MAX), Rep::Times(u32::MAX - 1), Rep::Times(1 << 20), Rep::Infinite, Rep::Times(7)]);
         }
@@ -87,7 +87,7 @@ fn case<S: Shape>(r: &mut Rng, acc: &mut Acc, index: u64) {
     if n_comp > 0 {
         let want_delay = specs.iter().map(|s| s.delay).fold(f32::INFINITY, f32::min);
         let want_rep = specs.iter().map(|s| s.repeat).max_by_key(|r| rep_rank(*r)).unwrap();
-        let want_dur = comps.iter().map(|c| c.duration()).fold(0.0f32, f32::max);
+        let want_dur = comps.iter().map(|c| c.duration()).fold(f32::NEG_INFINITY, f32::max);
         let any_inf = specs.iter().any(|s| s.repeat == Rep::Infinite);
         let all_same_cycle = specs.iter().all(|s| s.cycle.to_bits() == specs[0].cycle.to_bits());
         if !same_f32(merged.delay(), want_delay) {
@@ -139,6 +139,23 @@ fn case<S: Shape>(r: &mut Rng, acc: &mut Acc, index: u64) {
                     case("overlay-in-order", t),
                 );
                 break;
+            }
+        }
+        if n_comp >= 2 {
+            // nesting: a merged timeline of (first k components merged, the rest merged) is the same overlay
+            let k = 1 + (t.to_bits() as usize) % (n_comp - 1);
+            let mut left = MergedTimeline::of(comps[..k].iter().cloned());
+            let mut right = MergedTimeline::of(comps[k..].iter().cloned());
+            let _ = (&mut left, &mut right);
+            let nested = MergedTimeline::of([left, right]);
+            let mut g3 = init.clone();
+            nested.update(&mut g3, t);
+            acc.eval();
+            if g3.all_bits() != got.all_bits() {
+                acc.violation("c12:nested", format!("merged-of-merged (split after {k}) differs from the flat merged timeline at t={t}"), case("nesting", t));
+            }
+            if !same_f32(nested.delay(), merged.delay()) || nested.duration().to_bits() != merged.duration().to_bits() || nested.repeat() != merged.repeat() {
+                acc.violation("c12:nested-meta", "merged-of-merged reports different aggregate timing than the flat merged timeline".to_string(), case("nesting-metadata", t));
             }
         }
         if disjoint && n_comp >= 2 {
